@@ -139,8 +139,15 @@ func c08Call(c *Ctx, cs *c08Sess, caseID string, m *apiMethod, args []string, cl
 	rig.CallTick()
 	m.Call(cs.s.Conn, args)
 	cs.s.Conn.Raw(sep)
+	// (the separator is the last thing this goroutine issued: on a FIFO queue it is the last line. Should a line of the
+	// call straggle in behind it, the transcript below does not end in the separator and is reported as such.)
 	ok := cs.mc.WaitLines(WaitLong, func(lines []string) bool {
-		return len(lines) > 0 && lines[len(lines)-1] == sep
+		for i := len(lines) - 1; i >= 0 && i >= len(lines)-300; i-- {
+			if lines[i] == sep {
+				return true
+			}
+		}
+		return false
 	})
 	if !ok {
 		c.R.Inconcl(fmt.Sprintf("%s: separator not seen after %s(%q)", caseID, m.Name, args))
